@@ -25,7 +25,75 @@ class M(object):
         self.note = note
 
 
+def apply_unified_diff(diff_text, read_file):
+    """Apply a unified diff (git format) in memory.  read_file(relpath) -> str or None.
+    Returns {relpath: new source} or None when a hunk does not match the current text."""
+    import re
+
+    out = {}
+    cur = None
+    lines = diff_text.split("\n")
+    i = 0
+    hunks = {}
+    while i < len(lines):
+        ln = lines[i]
+        if ln.startswith("+++ "):
+            cur = ln[4:].strip()
+            if cur.startswith("b/"):
+                cur = cur[2:]
+            hunks[cur] = []
+        elif ln.startswith("@@") and cur is not None:
+            m = re.match(r"@@ -(\d+)(?:,(\d+))? \+(\d+)(?:,(\d+))? @@", ln)
+            old_start = int(m.group(1))
+            body = []
+            i += 1
+            while i < len(lines) and not lines[i].startswith(("@@", "diff --git", "--- ", "+++ ")):
+                if lines[i].startswith("\\"):
+                    i += 1
+                    continue
+                body.append(lines[i])
+                i += 1
+            while body and body[-1] == "":
+                body.pop()
+            hunks[cur].append((old_start, body))
+            continue
+        i += 1
+    for path, hs in hunks.items():
+        src = read_file(path)
+        if src is None:
+            return None
+        src_lines = src.split("\n")
+        offset = 0
+        for old_start, body in hs:
+            old_block = [b[1:] for b in body if b[:1] in (" ", "-")]
+            new_block = [b[1:] for b in body if b[:1] in (" ", "+")]
+            pos = old_start - 1 + offset
+            if src_lines[pos:pos + len(old_block)] != old_block:
+                # search nearby
+                found = None
+                for delta in range(-40, 41):
+                    q_ = pos + delta
+                    if q_ >= 0 and src_lines[q_:q_ + len(old_block)] == old_block:
+                        found = q_
+                        break
+                if found is None:
+                    return None
+                pos = found
+            src_lines[pos:pos + len(old_block)] = new_block
+            offset += len(new_block) - len(old_block)
+        out[path] = "\n".join(src_lines)
+    return out
+
+
 def _apply(m, repo):
+    if getattr(m, "diff", None) is not None:
+        def rd(rel):
+            full = os.path.join(repo, rel)
+            if not os.path.isfile(full):
+                return None
+            with open(full, encoding="utf-8") as f:
+                return f.read()
+        return apply_unified_diff(m.diff, rd)
     full = os.path.join(repo, m.path)
     if not os.path.isfile(full):
         return None
@@ -50,7 +118,8 @@ def _one(args):
     try:
         import ast
 
-        ast.parse(overlay[m.path])
+        for _src in overlay.values():
+            ast.parse(_src)
     except SyntaxError as e:
         return (m.name, "broken", "mutant does not parse: %s" % e, [])
     try:
@@ -79,7 +148,21 @@ def run(prop, seed, base_results=None, repo=None):
     from .cli import run_property
 
     repo = repo or REPO
-    specs = mm.MUTANTS.get(prop, [])
+    specs = list(mm.MUTANTS.get(prop, []))
+    # independently seeded changes kept under /verif/seeded that this property's check is on record as catching
+    import glob
+    import json
+
+    verif = os.path.dirname(os.path.dirname(os.path.abspath(__file__)))
+    for d in sorted(glob.glob(os.path.join(verif, "seeded", "C*-*"))):
+        try:
+            meta = json.load(open(os.path.join(d, "meta.json")))
+        except Exception:
+            continue
+        if prop in meta.get("detected_by", []):
+            sm = M("seed:" + os.path.basename(d), None, None, None, expect=prop + "-R")
+            sm.diff = open(os.path.join(d, "patch.diff")).read()
+            specs.append(sm)
     if not specs:
         return {"selftest": {"mutants": 0, "twins": 0}}
     if base_results is None:
